@@ -80,6 +80,20 @@ class _Footprint:
 FOOTPRINT = _Footprint()
 
 
+def _library_uses_locks() -> bool:
+    """The write-write rule is sound only for unsynchronised tasks.  The library has no lock today;
+    should one appear (module `threading` imported by a groupby_lib module, or a lock object among its
+    globals) the footprint verdicts are withheld - the harness would first have to model the lock."""
+    import threading
+
+    lock_types = (type(threading.Lock()), type(threading.RLock()))
+    for m in _lib_modules():
+        for v in list(vars(m).values()):
+            if v is threading or isinstance(v, lock_types):
+                return True
+    return False
+
+
 _LIBMODS = [0, []]
 
 
@@ -334,6 +348,10 @@ class ControlledExecutor:
         fn, args, kw = f._task
         self.pending.remove(f)
         fp = FOOTPRINT.enabled and len(self.all) > 1
+        if fp and _library_uses_locks():
+            from . import env as _env
+            raise _env.BindingBroken("footprint check: groupby_lib uses threading locks, which the "
+                                     "controlled executor does not model")
         if fp:
             st = self._fp
             if st is None or st["ntasks"] != len(self.all):
